@@ -27,15 +27,18 @@ LEVEL_TEXT = ("Coq proofs about the executable model meek_model (textbook rules 
               "meek_complete_on_patterns_bounded_5_every_dag lifts it to EVERY well-formed DAG on 0..n-1 with its own edge "
               "lists in any order (coverage of the enumeration + graph extensionality of pattern_of, meek_model and "
               "essential_graph, C08/Cover.v, Ext.v, ExtEss.v). "
-              "REFUTED for the rules as coded before the repair — meek_sound_code_refuted / _spec (rule 1 with ancestors orients an "
+              "extension_oracle_sound: has_extension p = true gives a Spec.consistent_ext (reflection of the boolean oracle); "
+              "fully_oriented_is_its_extension. REFUTED for the rules as coded before the repair — meek_sound_code_refuted / _spec (rule 1 with ancestors orients an "
               "edge against a consistent extension in the sense of Spec.consistent_ext). "
               "BY CORRESPONDENCE — _apply_meek_rules of the repository equals the model on the generated inputs; "
               "completeness with background knowledge (model = maximally oriented graph) only observed by the extracted oracle.")
 LEVEL_NOTE = ("the tie is differential (extracted model vs. implementation on generated inputs); iteration order of graph.nodes / "
               "neighbors is modelled as V-order x V-order, the theorems hold for every order; "
               "measured kernel cost of n=5: naive check about 0.4 s per DAG (3 CPU-hours), table-driven with one v-structure "
-              "signature per DAG 4.3 CPU-min in total; essential_graph / is_ext are boolean oracles (acyclicb proved sound for "
-              "Spec.acyclic, the rest of the reflection is not proved)")
+              "signature per DAG 4.3 CPU-min in total; is_ext / has_extension are reflected to Spec.consistent_ext (soundness direction, C08/Reflect.v); essential_graph "
+              "stays a boolean oracle; unbounded completeness (Meek 1995 Thm 3) not attempted: the converse inclusion needs the "
+              "reversibility of every edge left undirected, i.e. chordality of the chain components and the orientation lemma that "
+              "C09/Component.v takes as the hypothesis rounds_extendable")
 TECHNIQUE = "Coq proof (invariants, unbounded; completeness bounded n<=5 by vm_compute) + extracted-model correspondence"
 
 
